@@ -800,6 +800,10 @@ def c46(res, tier, seed):
     f3 = [(legname(g), False) for g in (LEG3 if tier != "quick" else [LEG3[0], LEG3[5]])] + [(legname(LEG3[0]), True)]
     mc(res, b, "legacy2", legname(LEG2[5]), [101, 113, 114, 116, 120, 212, 501, 516, 613, 616, 701], ["rt", "clone", "merge", "equal", "checkinit"], 2,
        nest_at=116, nest_fields=[1, 3], flavs=f2)
+    # a singular message field whose Go type is itself a legacy message, present on both sides of a merge / in both halves of a
+    # concatenation with complementary sub-fields (merge, never replace): Merge, concatenated decoding, Unmarshal{Merge}
+    mc(res, b, "legacy2-merge", legname(LEG2[5]), [116], ["merge", "cat", "umerge"], 3, nobj=3, nest_at=116, nest_fields=[1, 2], flavs=f2,
+       laws=["AllWellFormed", "MergeIsConcat", "MergeOptionLaw"])
     mc(res, b, "legacy3", legname(LEG3[5]), [101, 201, 300], ["rt", "clone", "merge", "equal"], 2, flavs=f3)
     types = [legname(g) for g in LEG2 + LEG3] + [legname(g) + ":dyn" for g in (LEG2[0], LEG2[5], LEG3[0], LEG3[5])]
     os.environ["VERIF_MIX"] = "mut=10,marshal=3,size=1,unmarshal=3,rt=3,merge=2,clone=2,equal=2,checkinit=2,umerge=1,cat=1"
